@@ -290,7 +290,7 @@ def norm_findings(reply, names):
         if "report" in e:
             r = e["report"]
             msg = re.sub(r"\b(?:[UVZP]_\d+_\d+|hc\d+)\b", "COMP", r["message"])
-            msg = re.sub(r"\[(?:i|anon_var_\d+_\d+)\]", "[IDX]", msg)
+            msg = re.sub(r"\[(?:i|anon_var[_@]\d+_\d+)\]", "[IDX]", msg)
             out.append((r["id"], msg))
     return sorted(out)
 
@@ -478,7 +478,7 @@ def run(ctx):
                 only_s = collections.Counter(fs) - collections.Counter(fh)
                 only_h = collections.Counter(fh) - collections.Counter(fs)
                 counter_artefact = (not only_h and "for (" in src and all(
-                    (i == "CS0004") or (i == "CS0008" and re.search(r"`anon_var_\d+_\d+`", m)) for (i, m) in only_s))
+                    (i == "CS0004") or (i == "CS0008" and re.search(r"`anon_var[_@]\d+_\d+`", m)) for (i, m) in only_s))
                 sig = ("loop-counter-artefact: extra CS0004/CS0008 for the generated anon_var of an anonymous component inside a loop"
                        if counter_artefact else "expansion-findings-differ " + str(sorted(set(fs) ^ set(fh))[:1])[:60])
                 l2_pending.pop((fidx, nm), None)
